@@ -5,6 +5,9 @@ package c03
 import (
 	"errors"
 	"fmt"
+	"os"
+	"regexp"
+	"strconv"
 	"strings"
 	"sync"
 	"time"
@@ -13,7 +16,9 @@ import (
 	"github.com/influxdata/influxdb/models"
 	"github.com/influxdata/influxdb/services/meta"
 	"github.com/influxdata/influxdb/tsdb"
+	"verifharness/clusterh"
 	"verifharness/fw"
+	"verifharness/shardh"
 )
 
 type Prop struct{}
@@ -40,6 +45,19 @@ func perms(xs []int) [][]int {
 		}
 	}
 	return out
+}
+
+func e2eCases(tier string) []fw.Case {
+	var cases []fw.Case
+	for _, lv := range levels {
+		for _, cfg := range [][3]int{{2, 1, 0}, {3, 2, 0}, {3, 2, 1}, {3, 3, 1}} {
+			if tier != "thorough" && cfg[0] == 3 && cfg[1] == 2 && cfg[2] == 1 && lv != "quorum" {
+				continue
+			}
+			cases = append(cases, fw.Case{Ops: []string{fmt.Sprintf("e2e %d %s %d %d", cfg[0], lv, cfg[1], cfg[2])}, Tags: []string{"e2e", "level=" + lv}})
+		}
+	}
+	return cases
 }
 
 func (Prop) Generate(r *fw.Rand, tier string) []fw.Case {
@@ -130,7 +148,7 @@ func (Prop) Generate(r *fw.Rand, tier string) []fw.Case {
 		cases = append(cases, fw.Case{Ops: []string{fmt.Sprintf("w %s %s %s", levels[r.Intn(4)], strings.Join(outs, ","), os)},
 			Tags: []string{fmt.Sprintf("n=%d", n), "sampled"}})
 	}
-	return cases
+	return append(cases, e2eCases(tier)...)
 }
 
 // ---- mocks ----
@@ -403,9 +421,92 @@ func b01(b bool) string {
 	return "0"
 }
 
+// recHH records what the coordinator hands to hinted handoff.
+type recHH struct {
+	mu    sync.Mutex
+	calls map[uint64]int
+}
+
+func (h *recHH) WriteShard(shardID, ownerID uint64, points []models.Point) error {
+	h.mu.Lock()
+	defer h.mu.Unlock()
+	h.calls[ownerID]++
+	return nil
+}
+func (h *recHH) Empty(shardID, ownerID uint64) bool { return true }
+
+var e2eMu sync.Mutex
+
+// runE2E: `e2e <nodes> <level> <rf> <loc>` — real data nodes (coordinator service, shard
+// writer, store on each); a shard group whose one shard is owned by rf nodes (the coordinator
+// among them iff loc = 1) and that none of them has opened yet; one point written through the
+// coordinator's PointsWriter at the given level. Every owner is healthy, so the write must
+// succeed, every owner must hold the point and nothing may go to hinted handoff.
+func runE2E(f []string) (res string) {
+	defer func() {
+		if r := recover(); r != nil {
+			res = "panic:" + strings.ReplaceAll(fmt.Sprint(r), " ", "_")
+		}
+	}()
+	e2eMu.Lock() // a few real nodes at a time are enough
+	defer e2eMu.Unlock()
+	n, _ := strconv.Atoi(f[1])
+	rf, _ := strconv.Atoi(f[3])
+	lv, err := models.ParseConsistencyLevel(f[2])
+	if err != nil || rf < 1 || rf > n {
+		return "bad-op"
+	}
+	dir, _ := os.MkdirTemp(shardh.WorkDir("c03"), "e2e-")
+	defer os.RemoveAll(dir)
+	c, err := clusterh.New(dir, n, "inmem")
+	if err != nil {
+		return "err:" + strings.ReplaceAll(err.Error(), " ", "_")
+	}
+	defer c.Close()
+	var owners []int
+	first := 1
+	if f[4] == "1" {
+		first = 0
+	}
+	for i := 0; i < rf; i++ {
+		owners = append(owners, (first+i)%n)
+	}
+	const base = int64(1600000000000000000)
+	ids := c.AddShardGroup(base, base+1000000, [][]int{owners})
+	hh := &recHH{calls: map[uint64]int{}}
+	c.Nodes[0].PointsWriter.HintedHandoff = hh
+	pt := models.MustNewPoint("m", models.NewTags(map[string]string{"h": "a"}), models.Fields{"v": int64(7)}, time.Unix(0, base+5))
+	werr := c.Nodes[0].PointsWriter.WritePointsPrivileged(clusterh.DB, clusterh.RP, lv, []models.Point{pt})
+	// what every owner holds afterwards (a level below `all` returns before the last owner
+	// answered: give the stragglers a moment)
+	var st, hc []string
+	for _, o := range owners {
+		have := "0"
+		for try := 0; try < 200 && have == "0"; try++ {
+			if sh := c.Nodes[o].Store.Shard(ids[0]); sh != nil {
+				if names, _ := sh.MeasurementNamesByRegex(regexp.MustCompile(".*")); len(names) == 1 {
+					have = "1"
+				}
+			}
+			if have == "0" {
+				time.Sleep(5 * time.Millisecond)
+			}
+		}
+		st = append(st, have)
+		hh.mu.Lock()
+		hc = append(hc, fmt.Sprint(hh.calls[c.IDs[o]]))
+		hh.mu.Unlock()
+	}
+	return fmt.Sprintf("%s stored=%s hh=%s", classify(werr), strings.Join(st, ","), strings.Join(hc, ","))
+}
+
 func (Prop) RunImpl(c fw.Case) []string {
 	out := make([]string, len(c.Ops))
 	for i, op := range c.Ops {
+		if strings.HasPrefix(op, "e2e ") {
+			out[i] = runE2E(strings.Fields(op))
+			continue
+		}
 		out[i] = runOne(op)
 	}
 	return out
@@ -415,6 +516,17 @@ func (Prop) RunImpl(c fw.Case) []string {
 // result/effects — no reference to the Lean model.
 func (Prop) Oracle(c fw.Case, implOut []string) fw.Verdict {
 	for k, op := range c.Ops {
+		if strings.HasPrefix(op, "e2e ") && k < len(implOut) {
+			// every owner is healthy: the write succeeds at every level, every owner holds the
+			// point, nothing is handed to hinted handoff
+			o := implOut[k]
+			f := strings.Fields(o)
+			bad := len(f) != 3 || f[0] != "ok" || strings.Contains(f[1], "0") || strings.Trim(strings.TrimPrefix(f[2], "hh="), "0,") != ""
+			if bad {
+				return fw.Verdict{OK: false, Why: op + " (all owners healthy, shard not yet opened on them) => " + o, Signature: "end-to-end write with healthy owners: " + strings.Fields(o + " ?")[0]}
+			}
+			continue
+		}
 		level, outs, order, ok := parseOp(op)
 		if !ok || k >= len(implOut) {
 			continue
@@ -489,6 +601,9 @@ func (Prop) Oracle(c fw.Case, implOut []string) fw.Verdict {
 }
 
 func (Prop) Trivial(c fw.Case, implOut []string) bool {
+	if strings.HasPrefix(c.Ops[0], "e2e ") {
+		return false
+	}
 	_, outs, _, ok := parseOp(c.Ops[0])
 	if !ok {
 		return true
@@ -504,5 +619,5 @@ func (Prop) Trivial(c fw.Case, implOut []string) bool {
 
 func (Prop) Describe(cfg *fw.Config) {
 	cfg.Exhaustive = true
-	cfg.Rule = "exhaustive: every owner-outcome vector (7 remote outcomes, 3 local outcomes, at most one local owner) x 4 levels x every arrival permutation of the answering owners for n<=3 (thorough n<=4), plus seeded samples with n in 5..8; a case is non-trivial unless every owner simply stored; distinct = distinct op line"
+	cfg.Rule = "(plus a dozen end-to-end writes through real data nodes — coordinator service, shard writer, store — to a shard its healthy owners have not opened yet, at every level: success, the point on every owner, nothing to hinted handoff) exhaustive: every owner-outcome vector (7 remote outcomes, 3 local outcomes, at most one local owner) x 4 levels x every arrival permutation of the answering owners for n<=3 (thorough n<=4), plus seeded samples with n in 5..8; a case is non-trivial unless every owner simply stored; distinct = distinct op line"
 }
